@@ -8,6 +8,7 @@
 //                           mj_jacDot, and the frames recomputed after mj_integratePos perturbations
 //                           of +-eps along every dof and along qvel
 //   E seed feat nbody rep   constraint rows: efc_J (dense) and efc_pos at q and at q +- eps e_k
+//   S seed rep              'simple' bodies on static mounts: constraint rows, mj_jacDifPair / mj_jacSum sparse and dense, finite differences
 //   Q k                     fixed corpus: joint / tendon equalities with coupling polynomials (coefficient pattern k)
 //   R                       a fixed tendon that lists the same joint twice must be rejected by mj_compile
 #include "mjgen.h"
@@ -165,7 +166,7 @@ static void efc_block(mjModel* m, mjData* d) {
   int nv = m->nv, nq = m->nq;
   mjtNum* q0 = (mjtNum*)calloc(nq + 1, sizeof(mjtNum)); mjtNum* dv = (mjtNum*)calloc(nv + 1, sizeof(mjtNum));
   int savej = m->opt.jacobian; m->opt.jacobian = mjJAC_DENSE;
-  mj_forward(m, d);
+  mj_fwdPosition(m, d);   // position stage only: the rows are built by mj_makeConstraint, the solver is not needed
   p1("nv", nv); p1("nefc", d->nefc); p1("ncon", d->ncon);
   pi("efc_type", d->efc_type, d->nefc); pi("efc_id", d->efc_id, d->nefc);
   pd("efc_pos", d->efc_pos, d->nefc); pd("efc_margin", d->efc_margin, d->nefc); pd("efc_J", d->efc_J, d->nefc * nv);
@@ -183,7 +184,7 @@ static void efc_block(mjModel* m, mjData* d) {
   { // the same rows with the sparse constraint Jacobian, densified here
     int nefc_dense = d->nefc;
     m->opt.jacobian = mjJAC_SPARSE;
-    mj_forward(m, d);
+    mj_fwdPosition(m, d);   // position stage only: the rows are built by mj_makeConstraint, the solver is not needed
     p1("nefc_sparse", d->nefc);
     mjtNum* js = (mjtNum*)calloc((size_t)d->nefc * nv + 1, sizeof(mjtNum));
     for (int r = 0; r < d->nefc; r++) for (int k = 0; k < d->efc_J_rownnz[r]; k++)
@@ -197,7 +198,7 @@ static void efc_block(mjModel* m, mjData* d) {
     for (int i = 0; i < nv; i++) dv[i] = (i == k ? 1.0 : 0.0);
     memcpy(d->qpos, q0, sizeof(mjtNum) * nq);
     mj_integratePos(m, d->qpos, dv, sg ? -eps : eps);
-    mj_forward(m, d);
+    mj_fwdPosition(m, d);   // position stage only: the rows are built by mj_makeConstraint, the solver is not needed
     char nm[64];
     snprintf(nm, sizeof(nm), "%c%d_efc_type", sg ? 'M' : 'P', k); pi(nm, d->efc_type, d->nefc);
     snprintf(nm, sizeof(nm), "%c%d_efc_id", sg ? 'M' : 'P', k); pi(nm, d->efc_id, d->nefc);
@@ -264,12 +265,138 @@ static void eq_poly_corpus(int k) {
   mj_deleteData(d); mj_deleteModel(m); mj_deleteSpec(s);
 }
 
+// "simple" bodies (body_simple: leaf, inertial frame = body frame, joints at the origin, axis-aligned, at most one rotational
+// joint; child of the world or of a jointless child of the world) take fast paths in the sparse Jacobian code
+// (mj_jacSparseSimple, mj_mergeChainSimple).  Corpus: static mounts with their own mass and several children, simple and
+// deliberately non-simple leaves of every joint kind, connect / weld equalities between them and to the world; data: the
+// constraint rows (dense and sparse) and mj_jacDifPair / mj_jacSum, sparse and dense, with finite differences of the points
+static void simple_corpus(unsigned long long seed, int rep) {
+  mjg_rng R = { seed * 7919 + (unsigned long long)rep * 104729 + 11 }; mjg_rng* r = &R;
+  mjSpec* s = mj_makeSpec();
+  mjsBody* world = mjs_findBody(s, "world");
+  mjsBody* mounts[3]; int nm = 1 + mjg_int(r, 2);
+  for (int i = 0; i < nm; i++) {
+    mjsBody* parent = (i == 1 && mjg_chance(r, 0.3)) ? mounts[0] : world;     // sometimes a mount on a mount (then its leaves are not simple)
+    mjsBody* mb = mjs_addBody(parent, NULL); char nmn[16]; snprintf(nmn, sizeof(nmn), "mount%d", i); mjs_setName(mb->element, nmn);
+    for (int k = 0; k < 3; k++) mb->pos[k] = mjg_range(r, -0.5, 0.5);
+    if (mjg_chance(r, 0.7)) mjg_quat(r, mb->quat);
+    if (mjg_chance(r, 0.7)) { mjsGeom* g = mjs_addGeom(mb, NULL); g->type = mjGEOM_BOX; for (int k = 0; k < 3; k++) { g->size[k] = mjg_range(r, 0.05, 0.2); g->pos[k] = mjg_range(r, -0.4, 0.4); } g->contype = 0; g->conaffinity = 0; }
+    mounts[i] = mb;
+  }
+  int nl = 3 + mjg_int(r, 4);
+  for (int i = 0; i < nl; i++) {
+    int onmount = mjg_chance(r, 0.65);
+    mjsBody* lb = mjs_addBody(onmount ? mounts[mjg_int(r, nm)] : world, NULL); char nmn[16]; snprintf(nmn, sizeof(nmn), "leaf%d", i); mjs_setName(lb->element, nmn);
+    for (int k = 0; k < 3; k++) lb->pos[k] = mjg_range(r, -0.4, 0.4);
+    if (mjg_chance(r, 0.5)) mjg_quat(r, lb->quat);
+    int spoil = mjg_chance(r, 0.25) ? 1 + mjg_int(r, 3) : 0;      // 1: geom off-centre, 2: joint off the origin, 3: oblique axis
+    int kind = mjg_int(r, onmount ? 5 : 6);                        // 0 ball, 1 hinge, 2 slide, 3 slide+hinge, 4 slide+slide+ball, 5 free
+    if (kind == 5) mjs_addFreeJoint(lb);
+    else {
+      int nj = kind == 3 ? 2 : kind == 4 ? 3 : 1;
+      for (int q = 0; q < nj; q++) {
+        mjsJoint* j = mjs_addJoint(lb, NULL);
+        int rot = (q == nj - 1) && kind != 2;
+        j->type = !rot ? mjJNT_SLIDE : (kind == 0 || kind == 4) ? mjJNT_BALL : mjJNT_HINGE;
+        int ax = mjg_int(r, 3); j->axis[0] = j->axis[1] = j->axis[2] = 0; j->axis[ax] = mjg_chance(r, 0.5) ? 1 : -1;
+        if (spoil == 3 && j->type != mjJNT_BALL) j->axis[(ax + 1) % 3] = 0.5;
+        if (spoil == 2) j->pos[mjg_int(r, 3)] = 0.1;
+      }
+    }
+    mjsGeom* g = mjs_addGeom(lb, NULL); g->type = mjGEOM_SPHERE; g->size[0] = mjg_range(r, 0.04, 0.1); g->contype = 0; g->conaffinity = 0;
+    if (spoil == 1) g->pos[0] = 0.07;
+  }
+  int ne = 2 + mjg_int(r, 3);
+  for (int e = 0; e < ne; e++) {
+    mjsEquality* q = mjs_addEquality(s, NULL);
+    q->type = mjg_chance(r, 0.7) ? mjEQ_CONNECT : mjEQ_WELD; q->objtype = mjOBJ_BODY;
+    int a = mjg_int(r, nl), b = (a + 1 + mjg_int(r, nl - 1)) % nl; char n1[16], n2[16];
+    snprintf(n1, sizeof(n1), "leaf%d", a); snprintf(n2, sizeof(n2), "leaf%d", b);
+    mjs_setString(q->name1, n1); if (!mjg_chance(r, 0.2)) mjs_setString(q->name2, n2);
+    if (q->type == mjEQ_CONNECT) for (int k = 0; k < 3; k++) q->data[k] = mjg_range(r, -0.2, 0.2);
+    else { q->data[6] = 1; q->data[10] = 1; for (int k = 0; k < 3; k++) q->data[k] = mjg_range(r, -0.2, 0.2); }
+    q->active = 1;
+  }
+  mjModel* m = mj_compile(s, NULL);
+  if (!m) { printf("ERR compile %s\n", mjs_getError(s)); mj_deleteSpec(s); return; }
+  mjData* d = mj_makeData(m);
+  int nv = m->nv, nq = m->nq;
+  if (MJG_TRY) {
+    mjg_random_state(m, d, r, 1.0);
+    mju_zero(d->qfrc_applied, nv); mju_zero(d->xfrc_applied, 6 * m->nbody);
+    p1("nbody", m->nbody);
+    { int* bs = (int*)calloc(m->nbody, sizeof(int)); for (int b = 0; b < m->nbody; b++) bs[b] = m->body_simple[b]; pi("body_simple", bs, m->nbody); free(bs); }
+    pi("body_parentid", m->body_parentid, m->nbody); pi("body_rootid", m->body_rootid, m->nbody); pi("body_dofnum", m->body_dofnum, m->nbody);
+    pi("body_jntnum", m->body_jntnum, m->nbody); pi("body_jntadr", m->body_jntadr, m->nbody); pi("jnt_type", m->jnt_type, m->njnt);
+    efc_block(m, d);
+    // body pairs
+    mjtNum* q0 = (mjtNum*)calloc(nq + 1, sizeof(mjtNum)); mjtNum* dv = (mjtNum*)calloc(nv + 1, sizeof(mjtNum));
+    memcpy(q0, d->qpos, sizeof(mjtNum) * nq);
+    mj_fwdPosition(m, d);
+    int* chain = (int*)calloc(nv + 1, sizeof(int));
+    mjtNum* buf = (mjtNum*)calloc(24 * (size_t)nv + 24, sizeof(mjtNum));
+    mjtNum *j1p = buf, *j2p = buf + 3 * nv, *jdp = buf + 6 * nv, *j1r = buf + 9 * nv, *j2r = buf + 12 * nv, *jdr = buf + 15 * nv, *fd = buf + 18 * nv;
+    int npair = 0;
+    for (int b1 = 0; b1 < m->nbody && npair < 12; b1++) for (int b2 = 0; b2 < m->nbody && npair < 12; b2++) {
+      if (b1 == b2 || !mjg_chance(r, 0.35)) continue;
+      if (m->body_dofnum[m->body_weldid[b1]] == 0 && m->body_dofnum[m->body_weldid[b2]] == 0) continue;
+      mjtNum l1[3], l2[3], p1w[3], p2w[3];
+      for (int k = 0; k < 3; k++) { l1[k] = mjg_range(r, -0.3, 0.3); l2[k] = mjg_range(r, -0.3, 0.3); }
+      memcpy(d->qpos, q0, sizeof(mjtNum) * nq); mj_fwdPosition(m, d);
+      mju_mulMatVec3(p1w, d->xmat + 9 * b1, l1); mju_addTo3(p1w, d->xpos + 3 * b1);
+      mju_mulMatVec3(p2w, d->xmat + 9 * b2, l2); mju_addTo3(p2w, d->xpos + 3 * b2);
+      char nm[64]; int pr[2] = { b1, b2 }; snprintf(nm, sizeof(nm), "pair_%d", npair); pi(nm, pr, 2);
+      mju_zero(buf, 18 * nv);
+      int NV = mj_jacDifPair(m, d, chain, b1, b2, p1w, p2w, j1p, j2p, jdp, j1r, j2r, jdr, 1, 0);
+      snprintf(nm, sizeof(nm), "pair_chain_%d", npair); pi(nm, chain, NV);
+      pdk("pair_sp_p", npair, jdp, 3 * NV); pdk("pair_sp_r", npair, jdr, 3 * NV);
+      mju_zero(buf, 18 * nv);
+      mj_jacDifPair(m, d, chain, b1, b2, p1w, p2w, j1p, j2p, jdp, j1r, j2r, jdr, 0, 0);
+      pdk("pair_de_p", npair, jdp, 3 * nv); pdk("pair_de_r", npair, jdr, 3 * nv);
+      // mj_jacSum at p2w of the two bodies with weights (-0.4, 1.3): sparse and dense
+      { int bodies[2] = { b1, b2 }; mjtNum w[2] = { -0.4, 1.3 };
+        m->opt.jacobian = mjJAC_SPARSE; mju_zero(buf, 18 * nv);
+        int NS = mj_jacSum(m, d, chain, 2, bodies, w, p2w, j1p, j1r, 1);
+        snprintf(nm, sizeof(nm), "sum_chain_%d", npair); pi(nm, chain, NS); pdk("sum_sp_p", npair, j1p, 3 * NS); pdk("sum_sp_r", npair, j1r, 3 * NS);
+        m->opt.jacobian = mjJAC_DENSE; mju_zero(buf, 18 * nv);
+        mj_jacSum(m, d, chain, 2, bodies, w, p2w, j1p, j1r, 1);
+        pdk("sum_de_p", npair, j1p, 3 * nv); pdk("sum_de_r", npair, j1r, 3 * nv);
+        // reference: weighted sum of mj_jac
+        mj_jac(m, d, j1p, j1r, p2w, b1); mj_jac(m, d, j2p, j2r, p2w, b2);
+        for (int k = 0; k < 3 * nv; k++) { jdp[k] = w[0] * j1p[k] + w[1] * j2p[k]; jdr[k] = w[0] * j1r[k] + w[1] * j2r[k]; }
+        pdk("sum_ref_p", npair, jdp, 3 * nv); pdk("sum_ref_r", npair, jdr, 3 * nv);
+      }
+      // finite difference of (p2 - p1), the points moving with their bodies
+      mjtNum eps = 1e-6;
+      for (int k = 0; k < nv; k++) {
+        mjtNum dp[2][3];
+        for (int sg = 0; sg < 2; sg++) {
+          mju_zero(dv, nv); dv[k] = 1; memcpy(d->qpos, q0, sizeof(mjtNum) * nq);
+          mj_integratePos(m, d->qpos, dv, sg ? -eps : eps); mj_kinematics(m, d);
+          mjtNum a[3], b[3];
+          mju_mulMatVec3(a, d->xmat + 9 * b1, l1); mju_addTo3(a, d->xpos + 3 * b1);
+          mju_mulMatVec3(b, d->xmat + 9 * b2, l2); mju_addTo3(b, d->xpos + 3 * b2);
+          for (int c = 0; c < 3; c++) dp[sg][c] = b[c] - a[c];
+        }
+        for (int c = 0; c < 3; c++) fd[c * nv + k] = (dp[0][c] - dp[1][c]) / (2 * eps);
+      }
+      pdk("pair_fd_p", npair, fd, 3 * nv);
+      npair++;
+    }
+    p1("npair", npair);
+    free(q0); free(dv); free(chain); free(buf);
+    MJG_END;
+  } else printf("ERR 2 %s\n", mjg_last_error);
+  mj_deleteData(d); mj_deleteModel(m); mj_deleteSpec(s);
+}
+
 int main(void) {
   mjg_install_handlers();
   char* line = NULL; size_t cap = 0;
   while (getline(&line, &cap, stdin) > 0) {
     char* p = line; char op = *p++;
     if (op == 'R') { repeated_joint_tendon(); printf("END\n"); fflush(stdout); continue; }
+    if (op == 'S') { unsigned long long sd = strtoull(p, &p, 10); int rp = (int)strtol(p, &p, 10); simple_corpus(sd, rp); printf("END\n"); fflush(stdout); continue; }
     if (op == 'Q') { eq_poly_corpus((int)strtol(p, &p, 10)); printf("END\n"); fflush(stdout); continue; }
     unsigned long long seed = strtoull(p, &p, 10); unsigned feat = (unsigned)strtoul(p, &p, 10);
     int nbody = (int)strtol(p, &p, 10); int rep = (int)strtol(p, &p, 10);
